@@ -29,6 +29,7 @@ type Mutant struct {
 
 var Mutants = map[string][]Mutant{
 	"C01": {
+		{"extra contours of a clipping element appended to the subject list", "path_intersection.go", `(\t\t\t\tqs\[i\] = split\[0\]\n\t\t\t\t)qs = append\(qs, split\[1:\]\.\.\.\)`, "${1}ps = append(ps, split[1:]...)", "E9.operand-lists-separate"},
 		{"depth plus one computed before the depth is read", "path_intersection.go", `(?s)(\t\t\twindings := 0\n)(\t\t\tprev := cur\.prev\n.*?)\t\t\tcur\.resultWindings = windings\n\t\t\tif !first\.open \{\n\t\t\t\t// we go to the right/top\n\t\t\t\tcur\.resultWindings\+\+\n\t\t\t\}\n`, "${1}\t\t\tabove := windings\n\t\t\tif !cur.open {\n\t\t\t\tabove++\n\t\t\t}\n${2}\t\t\tcur.resultWindings = above\n", "E9.depth-derived-after-read"},
 		{"neighbours of a leaving segment tested only across operands", "path_intersection.go", `(next := n\.Next\(\)\n\t\t\t\tif prev != nil && next != nil) \{`, "$1 && (op == opSettle || prev.clipping != next.clipping) {", "E9.adjacent-always-tested"},
 		{"windings not inherited above an open segment", "path_intersection.go", `(// compute windings\n\tif prev != nil) \{`, "$1 && !prev.open {", "E9.winding-inherited"},
@@ -46,6 +47,7 @@ var Mutants = map[string][]Mutant{
 		{"empty Q returns P for And", "path_intersection.go", `if op == opAND \{\n\t\t\treturn &Path\{\}\n\t\t\}\n\t\treturn ps\.Settle\(fillRule\)`, `return ps.Settle(fillRule)`, "E9.shortcut"},
 	},
 	"C02": {
+		{"result windings copied to the other end point for left-to-right edges only", "path_intersection.go", `(?s)(\t\t\t\tif cur\.left && !first\.open \{\n\t\t\t\t\t// we go to the right/top\n\t\t\t\t\tcur\.resultWindings\+\+\n)(\t\t\t\t\}\n)\t\t\t\tcur\.other\.resultWindings = cur\.resultWindings\n`, "${1}\t\t\t\t\tcur.other.resultWindings = cur.resultWindings\n${2}", "E9.windings-sync"},
 		{"depth plus one computed before the depth is read", "path_intersection.go", `(?s)(\t\t\twindings := 0\n)(\t\t\tprev := cur\.prev\n.*?)\t\t\tcur\.resultWindings = windings\n\t\t\tif !first\.open \{\n\t\t\t\t// we go to the right/top\n\t\t\t\tcur\.resultWindings\+\+\n\t\t\t\}\n`, "${1}\t\t\tabove := windings\n\t\t\tif !cur.open {\n\t\t\t\tabove++\n\t\t\t}\n${2}\t\t\tcur.resultWindings = above\n", "E9.depth-derived-after-read"},
 		{"neighbours of a leaving segment tested only across operands", "path_intersection.go", `(next := n\.Next\(\)\n\t\t\t\tif prev != nil && next != nil) \{`, "$1 && (op == opSettle || prev.clipping != next.clipping) {", "E9.adjacent-always-tested"},
 		{"windings not inherited above an open segment", "path_intersection.go", `(// compute windings\n\tif prev != nil) \{`, "$1 && !prev.open {", "E9.winding-inherited"},
@@ -133,6 +135,7 @@ var Mutants = map[string][]Mutant{
 		{"Windings looks at the whole path only", "path.go", `\tfor _, pi := range p\.Split\(\) \{\n\t\tzs := pi\.RayIntersections\(x, y\)`, "\tfor _, pi := range []*Path{p} {\n\t\tzs := pi.RayIntersections(x, y)", "E9.subpaths"},
 	},
 	"C07": {
+		{"Shear updates the entries of the receiver one after the other", "util.go", `(?s)(func \(m Matrix\) Shear\(sx, sy float64\) Matrix \{\n)\treturn m\.Mul\(Matrix\{\n[^\n]*\n[^\n]*\n\t\}\)\n`, "${1}\tm[0][0] += sy * m[0][1]\n\tm[1][1] += sx * m[1][0]\n\tm[0][1] += sx * m[0][0]\n\tm[1][0] += sy * m[1][1]\n\treturn m\n", "E11.matrix-composers"},
 		{"RotateAbout adds the pivot correction into the translation column", "util.go", `return m\.Translate\(x, y\)\.Rotate\(rot\)\.Translate\(-x, -y\)`, "sintheta, costheta := math.Sincos(rot * math.Pi / 180.0)\n\tm = m.Rotate(rot)\n\tm[0][2] += x - (costheta*x - sintheta*y)\n\tm[1][2] += y - (sintheta*x + costheta*y)\n\treturn m", "E11.matrix-composers"},
 		{"translation of the inverse uses the wrong cofactor", "util.go", `-\(-m\[1\]\[0\]\*m\[0\]\[2\] \+ m\[0\]\[0\]\*m\[1\]\[2\]\) / det,`, "-(-m[0][1]*m[0][2] + m[0][0]*m[1][2]) / det,", "E11.matrix-inverse"},
 		{"inverse of the arc frame composed as m⁻¹·R(−φ)", "path.go", `(?s)T := m\.Rotate\(phi \* 180\.0 / math\.Pi\)\n\t\t\tinvT := T\.Inv\(\)`, "invT := m.Inv().Rotate(-phi * 180.0 / math.Pi)", "E11.conic-frame"},
@@ -157,6 +160,7 @@ var Mutants = map[string][]Mutant{
 		{"Rect.Add max reads the low field", "util.go", `x1 := math\.Max\(r\.X1, q\.X1\)`, `x1 := math.Max(r.X1, q.X0)`, "E3.mirror"},
 	},
 	"C09": {
+		{"line case of SplitAt claims [T, T+dT)", "path.go", `(case LineToCmd, CloseCmd:\n(?:[^\n]*\n){0,12}?[^\n]*for j < len\(ts\) && )T < ts\[j\] && ts\[j\] <= T\+dT \{`, "${1}T <= ts[j] && ts[j] < T+dT {", "E11.cut-interval"},
 		{"leading zero stripped before the cut list is sorted", "path.go", `(?s)\tts = append\(\[\]float64\{\}, ts\.\.\.\) // don't sort the caller's slice\n\tsort\.Float64s\(ts\)\n\tif ts\[0\] == 0\.0 \{\n\t\tts = ts\[1:\]\n\t\}\n`, "\tif ts[0] == 0.0 {\n\t\tts = ts[1:]\n\t}\n\tif !sort.Float64sAreSorted(ts) {\n\t\tts = append([]float64{}, ts...)\n\t\tsort.Float64s(ts)\n\t}\n", "E11.cuts-sorted-before-use"},
 		{"remainder of a wide elliptical arc integrated from zero", "path_util.go", `(\treturn gaussLegendre5\(speed, theta1, theta2\)\n)`, "\tif dtheta := theta2 - theta1; math.Pi < dtheta {\n\t\treturn gaussLegendre5(speed, 0.0, math.Pi) + gaussLegendre5(speed, 0.0, dtheta-math.Pi)\n\t}\n${1}", "E11.quadrature-covers-arc"},
 		{"collinear cubic measured as its chord", "path_util.go", `(func cubicBezierLength\(p0, p1, p2, p3 Point\) float64 \{\n)`, "${1}\tif chord := p3.Sub(p0); !p0.Equals(p3) && Equal(chord.PerpDot(p1.Sub(p0)), 0.0) && Equal(chord.PerpDot(p2.Sub(p0)), 0.0) {\n\t\treturn chord.Length()\n\t}\n", "E9.chord-shortcut"},
@@ -258,6 +262,7 @@ var Mutants = map[string][]Mutant{
 		{"stroke keeps even-odd star", "renderers/pdf/pdf.go", `\t\t\tif closed \{\n\t\t\t\tr\.w\.Write\(\[\]byte\(" s"\)\)\n\t\t\t\} else \{\n\t\t\t\tr\.w\.Write\(\[\]byte\(" S"\)\)\n\t\t\t\}\n\t\t\} else if style\.HasFill\(\) && style\.HasStroke\(\) \{`, "\t\t\tif closed {\n\t\t\t\tr.w.Write([]byte(\" s\"))\n\t\t\t} else {\n\t\t\t\tr.w.Write([]byte(\" S\"))\n\t\t\t}\n\t\t\tif style.FillRule == canvas.EvenOdd {\n\t\t\t\tr.w.Write([]byte(\"*\"))\n\t\t\t}\n\t\t} else if style.HasFill() && style.HasStroke() {", "E5.grammar"},
 	},
 	"C14": {
+		{"stroke tolerance scaled by the diagonal of the view", "renderers/rasterizer/rasterizer.go", `if _, _, _, sx, sy, _ := m\.Decompose\(\); !canvas\.Equal\(sx, 0\.0\) \|\| !canvas\.Equal\(sy, 0\.0\) \{`, "if sx, sy := m[0][0], m[1][1]; !canvas.Equal(sx, 0.0) || !canvas.Equal(sy, 0.0) {", "E11.view-scale-invariant"},
 		{"scanner sink skips curve segments that end where they start", "path.go", `(?s)(func \(p \*Path\) ToScanxScanner.*?\t\t\tif 0 < i \{\n\t\t\t\tstart = Point\{p\.d\[i-3\], p\.d\[i-2\]\}\n\t\t\t\}\n)`, "${1}\t\t\tif n := cmdLen(cmd); start.Equals(Point{p.d[i+n-3], p.d[i+n-2]}) {\n\t\t\t\tbreak\n\t\t\t}\n", "E11.sink-forwards-every-segment"},
 		{"colour space conversion loops to the width of the image", "renderers/rasterizer/util.go", `(?s)(if dstRGBA, ok := dst\.\(\*image\.RGBA\); ok \{\n\t\tfor j := b\.Min\.Y; j < b\.Max\.Y; j\+\+ \{\n\t\t\t)for i := b\.Min\.X; i < b\.Max\.X; i\+\+ \{`, "${1}for i := 0; i < b.Dx(); i++ {", "E11.pixel-loop-bounds"},
 		{"hatch tile scanned with the path's fill rule", "renderers/rasterizer/rasterizer.go", `\t\t\t\tr\.scanner\.SetWinding\(true\) // the tile is the outline[^\n]*\n`, "", "E6.winding-mode"},
@@ -278,6 +283,7 @@ var Mutants = map[string][]Mutant{
 		{"rasterizer ignores the fill rule", "renderers/rasterizer/rasterizer.go", `\t\tr\.scanner\.SetWinding\(style\.FillRule != canvas\.EvenOdd\)\n`, ``, "E6.style-field"},
 	},
 	"C15": {
+		{"DrawImage reflects about half the far corner of the image rectangle", "canvas.go", `(?s)(func \(c \*Context\) DrawImage\(.*?)m = m\.ReflectYAbout\(float64\(img\.Bounds\(\)\.Size\(\)\.Y\) / 2\.0\)`, "${1}m = m.ReflectYAbout(float64(img.Bounds().Max.Y) / 2.0)", "E11.image-extent-from-size"},
 		{"Clip translates each layer matrix on the right", "canvas.go", `\tc\.Transform\(Identity\.Translate\(-rect\.X0, -rect\.Y0\)\)\n`, "\tfor _, layers := range c.layers {\n\t\tfor i := range layers {\n\t\t\tlayers[i].m = layers[i].m.Translate(-rect.X0, -rect.Y0)\n\t\t}\n\t}\n", "E11.layer-matrix-left"},
 		{"coordinate-system matrix cached when the system is set", "canvas.go", `(?s)(\tcoordSystem CoordSystem\n\})(.*?)func \(c \*Context\) CoordSystemView\(\) Matrix \{\n\t// a function since renderer's width/height may change\n\tswitch c\.coordSystem \{(.*?\n\}\n)(.*?)(\tc\.coordSystem = coordSystem\n)`, "\tcoordSystem CoordSystem\n\tsystemView  Matrix\n}${2}func (c *Context) CoordSystemView() Matrix {\n\treturn c.systemView\n}\n\nfunc (c *Context) coordSystemMatrix(coordSystem CoordSystem) Matrix {\n\tswitch coordSystem {${3}${4}${5}\tc.systemView = c.coordSystemMatrix(coordSystem)\n", "E11.draw-matrix"},
 		{"Stroke returns before resetting the path when there is no stroke", "canvas.go", `(func \(c \*Context\) Stroke\(\) \{\n)`, "${1}\tif !c.Style.HasStroke() {\n\t\treturn\n\t}\n", "E11.ctx-restore"},
